@@ -62,8 +62,9 @@ def scale_graph(draw, raw_type, max_scales=5, types=('Linear', 'Polynomial', 'Ta
                           'explicit_src': explicit, 'size_prop': k != 4 or draw(st.booleans())})
         elif t == 'Table':
             k = draw(st.integers(2, 5))
-            xs = sorted(draw(st.lists(st.floats(min_value=-1e4, max_value=1e4, allow_nan=False), min_size=k, max_size=k,
-                                      unique=True)))
+            # knots on a 1e-3 grid: distinct by a realistic margin (subnormal spacings make the segment slope overflow)
+            xs = sorted(x / 1000.0 for x in draw(st.lists(st.integers(-10 ** 7, 10 ** 7), min_size=k, max_size=k,
+                                                          unique=True)))
             ys = [draw(_coef) for _ in range(k)]
             if draw(st.booleans()):
                 xs = xs[::-1]
